@@ -92,6 +92,10 @@ func (c06) Run(ts *tape.Set, tier Tier) *Result {
 		res.probe("derived-link-system")
 	}
 	lsReifies := newWorld(store.New(), false, nodeReifier).LS.NodeReifier != nil
+	lazyFirst := access == 0 && planSeed%7 == 1
+	if lazyFirst {
+		res.probe("lazy-view-handed-to-preload-reifier")
+	}
 
 	st := store.New()
 	var entity cid.Cid
@@ -221,7 +225,15 @@ func (c06) Run(ts *tape.Set, tier Tier) *Result {
 			doAccess := func() error {
 				switch access {
 				case 0:
-					_, e := w.LS.KnownReifiers["unixfs-preload"](linking.LinkContext{}, rn, &w.LS)
+					in := rn
+					if lazyFirst {
+						// the caller already holds the LAZY view of this block (it
+						// asked for "unixfs" first) and now wants the preloading one
+						if ln, e := w.LS.KnownReifiers["unixfs"](linking.LinkContext{}, rn, &w.LS); e == nil {
+							in = ln
+						}
+					}
+					_, e := w.LS.KnownReifiers["unixfs-preload"](linking.LinkContext{}, in, &w.LS)
 					return e
 				case 3:
 					// file.NewUnixFSFileWithPreload is exported and documented as
